@@ -26,7 +26,7 @@ type C20Case struct {
 }
 
 var rootShapes = []string{"dup-ID", "dup-Destination", "dup-Version", "dup-InResponseTo", "x:ID-before", "x:ID-after", "x:Destination-before", "x:InResponseTo-after",
-	"issuer-twice", "issuer-twice-first-evil", "issuer-comment", "issuer-cdata", "issuer-child", "issuer-child-middle", "issuer-pi-middle", "issuer-pi-leading", "issuer-other-ns-first", "issuer-nested-deeper", "shadow-prefix", "status-before-issuer", "empty-attrs", "no-ID", "empty-ID", "no-InResponseTo", "empty-InResponseTo", "no-Destination", "empty-Destination", "no-IssueInstant", "no-issuer", "enc-issuer-after", "enc-issuer-first", "enc-status-after", "enc-root-attrs"}
+	"issuer-twice", "issuer-twice-first-evil", "issuer-comment", "issuer-cdata", "issuer-child", "issuer-child-middle", "issuer-pi-middle", "issuer-pi-leading", "issuer-other-ns-first", "issuer-nested-deeper", "shadow-prefix", "status-before-issuer", "empty-attrs", "no-ID", "empty-ID", "no-InResponseTo", "empty-InResponseTo", "no-Destination", "empty-Destination", "no-IssueInstant", "no-issuer", "xmlns-InResponseTo", "xmlns-Destination", "xmlns-Version", "xmlns-ID", "xmlns-IssueInstant", "xmlns-Value", "enc-issuer-after", "enc-issuer-first", "enc-status-after", "enc-root-attrs"}
 
 var prologs = []string{"", "", `<?xml version="1.0" encoding="UTF-8"?>`, `<?xml version="1.0" encoding="utf-8"?>`, `<?xml version="1.0" encoding="US-ASCII"?>`, `<?xml version="1.0" encoding="ISO-8859-1"?>`,
 	`<?xml version="1.0" encoding="UTF-16"?>`, "\xEF\xBB\xBF", "\xEF\xBB\xBF" + `<?xml version="1.0"?>`, `<!DOCTYPE x [<!ENTITY e "v">]>`, "<!-- c -->\n", `<?pi x?>`, "\n \t", evilSecondRoot("Response"), evilSecondRoot("LogoutResponse")}
@@ -165,6 +165,19 @@ func applyRootShape(root *etree.Element, shape string, evil string) {
 				root.InsertChildAt(0, c)
 			}
 		}
+	case "xmlns-InResponseTo", "xmlns-Destination", "xmlns-Version", "xmlns-ID", "xmlns-IssueInstant", "xmlns-Value":
+		// an UNUSED namespace declaration whose prefix is the name of a header attribute: exclusive canonicalisation
+		// neither signs nor keeps it (so it can be added to a SIGNED message too), a decoder that matches attributes
+		// by local name takes it for the attribute
+		a := etree.Attr{Space: "xmlns", Key: strings.TrimPrefix(shape, "xmlns-"), Value: map[string]string{"xmlns-Version": "1.1", "xmlns-Destination": "https://evil.example/acs", "xmlns-IssueInstant": "2001-01-01T00:00:00Z"}[shape]}
+		if a.Value == "" {
+			a.Value = "_evil"
+		}
+		if evil == "pre" {
+			root.Attr = append([]etree.Attr{a}, root.Attr...)
+		} else {
+			root.Attr = append(root.Attr, a)
+		}
 	case "empty-attrs":
 		post("Consent", "")
 	case "no-ID", "no-InResponseTo", "no-Destination", "no-IssueInstant":
@@ -278,6 +291,12 @@ func genC20(t *rapid.T) C20Case {
 	if err != nil {
 		t.Fatalf("harness: %v", err)
 	}
+	if c.Source == "genuine" && rapid.IntRange(0, 2).Draw(t, "xmlnsAfterSigning") == 0 {
+		// the message stays as signed, apart from an unused namespace declaration added to its root afterwards
+		s := rapid.SampledFrom([]string{"xmlns-InResponseTo", "xmlns-Destination", "xmlns-Version", "xmlns-ID", "xmlns-IssueInstant"}).Draw(t, "xmlnsShape")
+		c.Shapes = append(c.Shapes, s)
+		applyRootShape(root, s, rapid.SampledFrom([]string{"pre", "post"}).Draw(t, "xmlnsPos"))
+	}
 	if c.Source == "shaped" {
 		c.SP.Enc = h.KeyCfg{Mode: "tls", Field: h.CertRef{Key: "E1", Window: "wide"}} // for the enc-* shapes
 		n := rapid.IntRange(1, 3).Draw(t, "nShapes")
@@ -292,7 +311,7 @@ func genC20(t *rapid.T) C20Case {
 	}
 	lay.AllowComments = allowComments
 	xml := append(append([]byte(c.Prolog), h.Serialize(root, lay)...), c.Epilog...)
-	c.Encoded = respell(h.Encode(xml, pres), rapid.SampledFrom([]string{"canonical", "canonical", "wrapped", "crlf-wrapped", "trailing-newline", "nonzero-pad-bits"}).Draw(t, "b64"))
+	c.Encoded = respell(h.Encode(xml, pres), rapid.SampledFrom([]string{"canonical", "canonical", "wrapped", "crlf-wrapped", "trailing-newline", "nonzero-pad-bits", "crlf-64", "crlf-64+final"}).Draw(t, "b64"))
 	return c
 }
 
@@ -300,18 +319,24 @@ func genC20(t *rapid.T) C20Case {
 // same bytes: line wrapping (StdEncoding ignores CR / LF) or non-zero unused bits in the final quantum.
 func respell(b64 string, how string) string {
 	switch how {
-	case "wrapped", "crlf-wrapped":
-		nl := "\n"
-		if how == "crlf-wrapped" {
+	case "wrapped", "crlf-wrapped", "crlf-64", "crlf-64+final":
+		nl, cols := "\n", 76
+		if how != "wrapped" {
 			nl = "\r\n"
 		}
+		if strings.HasPrefix(how, "crlf-64") {
+			cols = 64
+		}
 		var sb strings.Builder
-		for i := 0; i < len(b64); i += 76 {
-			end := i + 76
+		for i := 0; i < len(b64); i += cols {
+			end := i + cols
 			if end > len(b64) {
 				end = len(b64)
 			}
 			sb.WriteString(b64[i:end] + nl)
+		}
+		if how == "crlf-64" {
+			return strings.TrimSuffix(sb.String(), nl) // no line break after the last line
 		}
 		return sb.String()
 	case "trailing-newline":
@@ -344,7 +369,7 @@ func checkC20(c C20Case) h.Outcome {
 	if c.Prolog != "" {
 		o.Classes = append(o.Classes, "prolog")
 	}
-	o.NonTrivial = c.Source == "shaped" || c.Prolog != ""
+	o.NonTrivial = c.Source == "shaped" || c.Prolog != "" || len(c.Shapes) > 0
 	encSig := func(base string) string {
 		if strings.Contains(c.Prolog, "ISO-8859-1") || strings.Contains(c.Prolog, "US-ASCII") || strings.Contains(c.Prolog, "UTF-16") {
 			return "predecode-rejects-declared-encoding"
